@@ -561,7 +561,7 @@ impl Monitor for C10 {
          size_bytes), table element, sizeof of every type and object kind, folding inside statements (char store, short store, condition; executed \
          on the emulator), fold versus run time (same expression on constants and on variables). Undefined cases (division by zero, overflowing \
          literals and results, shift counts outside the type) x 8 positions must be rejected. Only trees whose every intermediate fits a 16-bit \
-         int are used. non-trivial = accepted and compared"
+         int are used. Literals include escaped character constants next to one-letter macros n, r, v, b; hexadecimal literals with bit 31 set must be rejected. non-trivial = accepted and compared"
             .into()
     }
     fn assumptions(&self) -> Vec<String> {
